@@ -36,6 +36,7 @@ BINARIES = {
     "rt_bd4k": _rt("BoundedDropping", 4096, 4096),
     "rt_bb4k": _rt("BoundedBlocking", 4096, 4096),
     "rt_ub": _rt("UnboundedBlocking", 4096, 65536),
+    "rt_ub_asan": dict(_rt("UnboundedBlocking", 4096, 65536), flavour="asan"),
     "qtsan": {"sources": ["harness/queue_tsan.cpp", "engine/rc_driver.cpp"], "flavour": "tsan", "libs": RC_LIBS, "harness": "qtsan"},
     "tsfmt_fuzz": _fuzzbin("harness/tsfmt.cpp"),
     "pattern_fuzz": _fuzzbin("harness/pattern.cpp"),
@@ -90,14 +91,14 @@ HOOKS = {
     "guard": "QUILL_VERIF",
     "enable": "every harness TU is compiled with -DQUILL_VERIF -I/repo/include (header-only library; see ./check)",
     "baseline_off_cmd": "cmake -G Ninja -S /repo -B /repo/_build -DQUILL_BUILD_TESTS=ON && cmake --build /repo/_build -j16 && ctest --test-dir /repo/_build -j8 --timeout 900",
-    "source_commits": ["c0ad062"],
+    "source_commits": ["c0ad062", "f8e18e3"],
     "add_only": True,
 }
 
 ENGINES = {
     "sim": {"path": "engine/sim.h", "serves": ["C03", "C05", "C06", "C08", "C09", "C10", "C16", "C17", "C18", "C20"],
             "kind": "harness-owned backend schedule: scheduler thread == ManualBackendWorker, baton-driven worker threads, interposed nanosleep/clock_gettime (blocked state, virtual time), yield-point bursts; harness/sim_main.cpp + sim_ops.h + sim_oracles.h"},
-    "rtstress": {"path": "harness/rt_stress.cpp", "serves": ["C03", "C06", "C08"], "kind": "real backend thread + 1-4 real frontend threads running generated programs under the OS scheduler; schedule-independent oracles at quiescence (second opinion for races inside backend/frontend functions that the serialised sim cannot interleave)"},
+    "rtstress": {"path": "harness/rt_stress.cpp", "serves": ["C03", "C06", "C08", "C17"], "kind": "real backend thread + 1-4 real frontend threads running generated programs under the OS scheduler; schedule-independent oracles at quiescence (second opinion for races inside backend/frontend functions that the serialised sim cannot interleave)"},
     "qtsan": {"path": "harness/queue_tsan.cpp", "serves": ["C01", "C02"], "kind": "real two-thread stress of the unmodified std::atomic queue code under ThreadSanitizer with generated configurations"},
     "wmm": {"path": "engine/wmm.h", "serves": ["C01", "C02", "C09"],
             "kind": "std::atomic retarget shim with per-location store history, vector clocks, coherence floors, choice-driven stale loads, coroutine scheduler, payload happens-before race detector"},
@@ -253,7 +254,7 @@ PROPERTIES = {
                  "StartThread, ExitThread, Poll with bursts at Y1..Y5); non-trivial = a removal was requested while statements of that "
                  "logger were still unwritten AND a name was re-created"),
         "assumptions": ["CsvWriter not exercised"],
-        "jobs": _simjobs("C17", ["sim_bb1k", "sim_ub", "sim_bd1k"], quick_procs=3),
+        "jobs": _simjobs("C17", ["sim_bb1k", "sim_ub", "sim_bd1k"], quick_procs=3) + [_rtjob("rt_ub_asan", "C17", quick_cases=12, quick_procs=3)],
     },
     "C18": {
         "technique": "stateful property-based testing of backtrace storage against a reference ring per logger (exact expected sink sequence)",
